@@ -289,6 +289,7 @@ SRCF_UNITS = [
         ("EUI", "__str__", {"self._dialect": "edialect"}), ("EUI", "__getstate__", {"self._dialect": "edialect"}),
     ] + [("EUI", "_set_value:%s_%s" % (m, t), {"value": t, "self.*": "state"}) for m in ("implicit", "eui48", "eui64") for t in ("str", "int")] + [
         ("EUI", "__init__:%s" % t, {"addr": t, "version": "optint", "dialect": "darg", "self.*": "state"}) for t in ("int", "str", "eui")] + [
+        ("EUI", "__setstate__", {"state": "tup:int,int,darg", "self.*": "state"}), ("IAB", "split_iab_mac", {"strict": "bool"}),
     ]),
 ]
 UNITS += SRCF_UNITS
@@ -307,6 +308,7 @@ SRCF_RESERVED = set("dialect_t mk_dialect d_word_size d_num_words d_word_sep d_w
 BY_FILE = {}        # (SRCF) source file -> all translators made for it, in unit order (filled by generate())
 FN_CLASS = {}       # (SRCF) output file -> the subclass of Fn that translates that unit's functions
 PURE_METHODS = PURE_METHODS + ("findall",)         # <compiled pattern>.findall(text) does not change the pattern object
+MODULE_HOOK = {}    # (SRCF) output file -> function applied to the parsed Module of that unit before anything is translated
 SRCF_STRUCT_SIZES = {"B": 1, "H": 2, "I": 4}       # struct format characters (big-endian, standard sizes) -> bytes per field
 
 
@@ -2035,6 +2037,13 @@ class FnF(Fn):
     def unit_init(self, env):
         self.dialect_param = False
         self.init_fullstate(env)
+        for i, (cn, ty) in enumerate(self.params):              # a parameter declared "tup:<t1>,<t2>,..": a tuple of those types
+            if isinstance(ty, str) and ty.startswith("tup:"):
+                ty = ("tup", tuple(ty[4:].split(",")))
+                self.params[i] = (cn, ty)
+                for key, val in env.items():
+                    if not key.startswith("@") and val[1] == cn:
+                        env[key] = (ty, cn)
         if self.recv is None and self.tr.prefix in ("eui48_", "eui64_"):
             # the module's own constants width / version / max_int: the regenerated constants of Gen/pysrc_eui_gen.v
             for c in ("width", "version", "max_int"):
@@ -2858,8 +2867,26 @@ def srcf_dialect_rec_const(t, name, node):
     return cn
 
 
+def srcf_module_hook(mod):
+    """a @classmethod whose first parameter `cls` is only read as `cls.<class-level constant>`: translated as a plain method of a
+    receiver without state, with cls = the class itself (a subclass overriding the constant is out of scope)"""
+    for c in mod.classes.values():
+        for f in c.body:
+            if (isinstance(f, ast.FunctionDef) and [dotted(d) for d in f.decorator_list] == ["classmethod"] and f.args.args
+                    and f.args.args[0].arg == "cls" and (c.name, f.name) in SRCF_CLASSMETHODS):
+                uses = [n for n in ast.walk(f) if isinstance(n, ast.Name) and n.id == "cls"]
+                attr_bases = {id(n.value) for n in ast.walk(f) if isinstance(n, ast.Attribute) and isinstance(n.ctx, ast.Load)}
+                if all(isinstance(n.ctx, ast.Load) and id(n) in attr_bases for n in uses):
+                    f.decorator_list = []
+                    f.args.args[0].arg = "self"
+                    for n in uses:
+                        n.id = c.name
+
+
+SRCF_CLASSMETHODS = {("IAB", "split_iab_mac")}
 for _u in SRCF_UNITS:
     FN_CLASS[_u[1]] = FnF
+MODULE_HOOK["pysrc_euib_gen.v"] = srcf_module_hook
 
 
 BY_MODULE = {}      # dotted module name -> the first translator made for its file (filled by generate())
@@ -2877,6 +2904,7 @@ class Translator:
         CURFILE.append(fn)
         try:
             self.mod = Module(fn)
+            MODULE_HOOK.get(out, lambda m: None)(self.mod)      # (SRCF) a unit may normalise the parsed module (see srcf_module_hook)
         finally:
             CURFILE.pop()
 
